@@ -399,6 +399,18 @@ fn gen_numbery(r: &mut Rng, depth: usize) -> Value {
 
 pub fn run(sink: &mut Sink, thorough: bool, seed: u64) {
     let mut r = Rng::new(seed);
+    // 0. fixed corpus first (small cases make small replays): zeros of both signs, integer/float twins
+    for v in [Value::from(0.0f64), Value::from(-0.0f64), Value::from(0u64), Value::Null] {
+        for w in [Value::from(0.0f64), Value::from(-0.0f64), Value::from(0u64), Value::from(1.0f64), Value::from(1u64)] {
+            emit_value_pair(sink, &v, &w, "zeros");
+            emit_value_pair(sink, &Value::Array(vec![v.clone()]), &Value::Array(vec![w.clone()]), "zeros");
+            let (mut a, mut b) = (Map::new(), Map::new());
+            a.insert("z".into(), v.clone()); a.insert("a".into(), Value::Null);
+            b.insert("a".into(), Value::Null); b.insert("z".into(), w.clone());
+            emit_value_pair(sink, &Value::Object(a), &Value::Object(b), "zeros");
+        }
+        emit_hash(sink, &v, "zeros");
+    }
     // 1. exhaustive histories
     emit_hist(sink, "-", "exh0");
     let core = alphabet(false);
@@ -451,18 +463,7 @@ pub fn run(sink: &mut Sink, thorough: bool, seed: u64) {
         let h2 = if toks.is_empty() { "-".to_string() } else { toks.join(",") };
         emit_eqh(sink, &h1, &h2, "rebuilt");
     }
-    // 4. values: == / Hash / sort_all_objects on nested, differently ordered objects and signed zeros
-    for v in [Value::from(0.0f64), Value::from(-0.0f64), Value::from(0u64), Value::Null] {
-        for w in [Value::from(0.0f64), Value::from(-0.0f64), Value::from(0u64), Value::from(1.0f64), Value::from(1u64)] {
-            emit_value_pair(sink, &v, &w, "zeros");
-            emit_value_pair(sink, &Value::Array(vec![v.clone()]), &Value::Array(vec![w.clone()]), "zeros");
-            let (mut a, mut b) = (Map::new(), Map::new());
-            a.insert("z".into(), v.clone()); a.insert("a".into(), Value::Null);
-            b.insert("a".into(), Value::Null); b.insert("z".into(), w.clone());
-            emit_value_pair(sink, &Value::Object(a), &Value::Object(b), "zeros");
-        }
-        emit_hash(sink, &v, "zeros");
-    }
+    // 4. random nested values, their reordered / sign-of-zero rewritings and perturbations
     for i in 0..(if thorough { 60000 } else { 6000 }) {
         let a = if i % 3 == 0 { gen_numbery(&mut r, 3) } else { gen_value(&mut r, 3) };
         let b = rewrite(&a, &mut r);
